@@ -198,6 +198,14 @@ pub fn run_one(prop: &dyn Prop, sec: &str, input: &Input, tier: Tier, st: &mut S
         Err(_) => {
             let (loc, msg) = take_panic();
             let short: String = msg.chars().take(300).collect();
+            // a panic inside the code under test, in a property that is not about crashing and
+            // whose statement only speaks about inputs the tools accept: recorded, not a verdict
+            // (C14 owns crashes).  A panic inside the harness itself is always reported.
+            if !prop.sut_crash_is_violation() && loc.starts_with("/repo/") {
+                st.label("sut-panicked(recorded, C14's subject)");
+                st.reject(&format!("[panic] {loc}: {}", short.chars().take(80).collect::<String>()));
+                return Verdict::Skip("the code under test panicked (outside this property; see C14)");
+            }
             let case = match input {
                 Input::Bytes(b) => json!({"choices_hex": hex(b), "note": "case panicked; decode with `vcheck describe`"}),
                 Input::Index(i) => json!({"index": i}),
